@@ -499,9 +499,28 @@ def replay(chk, data):
     if not text:
         print("replay file holds no probe text")
         return 2
+    if data.get("seeds") and not data.get("history"):
+        # a difference between fresh processes under different hash seeds: run the probe alone under each of them (and under a
+        # few fixed ones, in case a recorded seed was `random`)
+        seeds = [s for s in data["seeds"] if s != "random"] + ["0", "1", "12345", "7", "99"]
+        outs = {}
+        for sd in dict.fromkeys(seeds):
+            r = junline(chk.impl._run_chunk("native", [jline({"op": "hidden_probe", "probe": text, "again": 0,
+                                                              "outdir": chk.impl.build.root})], 600, {"PYTHONHASHSEED": sd})[0])
+            outs[sd] = json.dumps(r.get("shas")) + str(r.get("exc")) + json.dumps(r.get("cli"))
+            print(f"PYTHONHASHSEED={sd}: {outs[sd][:160]}")
+        chk.impl.close()
+        bad = len(set(outs.values())) > 1
+        if bad:
+            print(f"VIOLATION property=C12 replay={data.get('_path', '?')}")
+        return 1 if bad else 0
     hist = data.get("history") or {"ops": []}
-    out = junline(chk.impl._run_chunk("native", [jline({"op": "hidden_history", "ops": hist.get("ops", []), "probe": text, "again": 2,
-                                                       "outdir": chk.impl.build.root, "struct": True})], 600, {})[0])
+    cfg = hist.get("config", "native")
+    env = {"PYTHONHASHSEED": str(hist["seed"])} if hist.get("seed") not in (None, "random") else {}
+    out = junline(chk.impl._run_chunk(cfg, [jline({"op": "hidden_history", "ops": hist.get("ops", []), "probe": text,
+                                                   "again": int(hist.get("again", 2)), "outdir": chk.impl.build.root, "struct": True,
+                                                   "newparser": bool(hist.get("newparser", True)),
+                                                   "instrument": bool(hist.get("instrument", True))})], 600, env)[0])
     fresh = junline(chk.impl._run_chunk("native", [jline({"op": "hidden_probe", "probe": text, "again": 0, "outdir": chk.impl.build.root})], 600, {})[0])
     shas = out.get("probe", {}).get("shas")
     print("after history / repeated schedule():", shas)
